@@ -206,6 +206,9 @@ def run(f, fixture, rep, cfg, tier):
     rep.floor("R", "panic/alloc sites enumerated on the read cone (%s)" % cfg, aud.stats["sites"], 25)
     # tainted-count loops must be able to fail and must advance the cursor
     check_count_loops(f, rep, cone)
+    # the string-list loops additionally have to advance past every terminator (C05.R2): a cursor that can stand still turns the
+    # entry's count into that many empty strings
+    rep.include("c05", f, fixture, cfg, tier, "R", "string-list loop cursor", only_rules={"R2"}, floor=1)
     # positive control: the fixture's unguarded constructs must be flagged
     from framework import Report
     probe = Report("C04", "quick")
